@@ -58,6 +58,7 @@ class Closure:
     def __init__(self, interp, node, env, name=None):
         self.interp, self.node, self.env = interp, node, env
         self.name = name or getattr(node, 'name', '<lambda>')
+        self.attrs = {}  # function attributes (`f.current = ...`)
 
     def __repr__(self):
         return 'Closure(%s)' % self.name
@@ -103,6 +104,10 @@ def get_attribute(ctx, obj, name):
         return obj.getattr(ctx, name)
     if hasattr(obj, 'sym_getattr'):
         return obj.sym_getattr(ctx, name)
+    if isinstance(obj, Closure):
+        if name in obj.attrs:
+            return obj.attrs[name]
+        raise PyRaise('AttributeError', note='function %s has no attribute %r' % (obj.name, name))
     if isinstance(obj, ClassRef):
         if name in obj.attrs:
             return obj.attrs[name]
@@ -293,6 +298,8 @@ def _own_nodes(fn):
     while stack:
         n = stack.pop()
         yield n
+        if isinstance(n, (ast.FunctionDef, ast.AsyncFunctionDef, ast.Lambda, ast.ClassDef)):
+            continue  # a def directly in the body: its yields belong to that inner function
         for c in ast.iter_child_nodes(n):
             if isinstance(c, (ast.FunctionDef, ast.AsyncFunctionDef, ast.Lambda, ast.ClassDef)):
                 continue
@@ -453,7 +460,10 @@ class Interp:
         for i, st in enumerate(order):
             self.loop_ids.setdefault(id(st), base + i)
 
-    def call_function(self, node, args=(), kwargs=None, closure_env=None):
+    def call_function(self, node, args=(), kwargs=None, closure_env=None, yield_sink=None):
+        """yield_sink: for a generator function, an object whose .append(v) is called AT each `yield v` (continuation
+        style: whatever append does happens at the yield point, an exception it raises is raised there); default: the
+        yielded values are collected eagerly into a list."""
         env = Env(closure_env)
         self.bind(node, env, args, kwargs or {})
         if isinstance(node, ast.Lambda):
@@ -462,12 +472,16 @@ class Interp:
             # generator function: evaluated eagerly into the list of yielded values (assumes the consumer
             # exhausts it at once and does not interleave effects; a raise surfaces at the call)
             self.ctx.dropped.add('generator evaluated eagerly: ' + node.name)
-            env.vars['__yields__'] = []
+            env.vars['__yields__'] = ys = yield_sink if yield_sink is not None else []
             try:
                 self.block(node.body, env)
             except _Return:
                 pass
-            return env.vars['__yields__']
+            except PyRaise as e:
+                if not hasattr(e, 'partial_yields'):
+                    e.partial_yields = ys  # what was yielded before the generator raised
+                raise
+            return ys
         try:
             self.block(node.body, env)
         except _Return as r:
@@ -579,6 +593,9 @@ class Interp:
             return obj.setattr(self.ctx, name, value)
         if hasattr(obj, 'sym_setattr'):
             return obj.sym_setattr(self.ctx, name, value)
+        if isinstance(obj, Closure):
+            obj.attrs[name] = value
+            return None
         raise Unsupported('attribute store on %s' % type(obj).__name__)
 
     def assign(self, t, v, env):
